@@ -394,7 +394,20 @@ func targets(c *hl.Ctx) []target {
 		{"many-small-tags", func(n int) []byte { return flvFile(n/16, 1) }},
 		{"one-big-tag", func(n int) []byte { return flvFile(1, n) }},
 	}})
-	ts = append(ts, target{name: "flv.AudioPackager.Decode", small: 3, run: func(b []byte) {
+	// tag bodies: every (first byte, second byte) pair - codec/format nibbles and the whole trait/flag byte - with every
+	// length from 2 to 9 (optional side fields of 1, 2 and 3 bytes present, cut short, absent)
+	tagBodyFamily := family{name: "two-header-bytes-x-length", gen: func(thorough bool, emit func([]byte, string)) {
+		tail := hl.Pattern(8, 3)
+		for b0 := 0; b0 < 256; b0++ {
+			for b1 := 0; b1 < 256; b1++ {
+				for n := 2; n <= 9; n++ {
+					b := append([]byte{byte(b0), byte(b1)}, tail[:n-2]...)
+					emit(b, fmt.Sprintf("first byte %02x, second byte %02x, %d bytes", b0, b1, n))
+				}
+			}
+		}
+	}}
+	ts = append(ts, target{name: "flv.AudioPackager.Decode", small: 3, families: []family{tagBodyFamily}, run: func(b []byte) {
 		p, _ := flv.NewAudioPackager()
 		f, err := p.Decode(b)
 		if err == nil && f != nil {
@@ -406,7 +419,7 @@ func targets(c *hl.Ctx) []target {
 	}, seeds: func() [][]byte {
 		return [][]byte{{0xaf, 0x01, 1, 2, 3}, {0xaf, 0x00, 0x12, 0x10}, {0xd0, 0x07, 0x30, 0x01, 0x02, 9, 9}, {0x2f, 1, 2, 3}}
 	}, pumps: []pump{{"long-raw", func(n int) []byte { return append([]byte{0xaf, 1}, hl.Pattern(n, 1)...) }}}})
-	ts = append(ts, target{name: "flv.VideoPackager.Decode", small: 3, run: func(b []byte) {
+	ts = append(ts, target{name: "flv.VideoPackager.Decode", small: 3, families: []family{tagBodyFamily}, run: func(b []byte) {
 		p, _ := flv.NewVideoPackager()
 		f, err := p.Decode(b)
 		if err == nil && f != nil {
